@@ -633,6 +633,10 @@ func (w *Reconciler) handleKillJob(
 	tasks []jobtasks.Task,
 ) (*execution.Job, error) {
 	if !shouldKillJob(rj) {
+		// Sync again once a kill timestamp that is still in the future has passed.
+		if ts := rj.Spec.KillTimestamp; ktime.IsTimeSetAndLater(ts) {
+			w.enqueueAfter(rj, "kill_timestamp", time.Until(ts.Time))
+		}
 		return rj, nil
 	}
 
